@@ -21,7 +21,9 @@ from pathlib import Path
 
 import yaml
 
-REPO = Path("/repo")
+import os
+
+REPO = Path(os.environ.get("VERIF_REPO", "/repo"))  # a scratch copy may be checked instead (seed scans)
 SRC = REPO / "src" / "_gettsim"
 
 
